@@ -119,7 +119,9 @@ def main():
         ctx.driver.available = False
     if args.replay:
         payload = json.load(open(args.replay))
-        case = payload.get('case', payload)
+        # a replay file either carries the failing input, or (no-failing-input-found) the first input on which model and
+        # implementation disagree
+        case = payload.get('case') or (payload.get('first_disagreement') or {}).get('case') or payload
         getattr(mod, replayname)(ctx, case)
     else:
         # corpus first: minimised past failures and one representative input per known finding
